@@ -296,7 +296,7 @@ class WebsocketSession(object):
 
     def _send_request(self):
         """Send the request over the wire."""
-        self.write(self.websocket.build_request())
+        self.write(self.websocket.build_request(self._state))
 
     def _check_poll(self, poll, session_time):
         """Check if it is time for a poll."""
@@ -317,7 +317,12 @@ class WebsocketSession(object):
                 next_ping += ping_rate
             self._next_ping = next_ping
             try:
-                self.websocket.send_ping()
+                if self.websocket.state is self._state:
+                    self.websocket.send_ping()
+                else:
+                    # connect() was called again since; this loop keeps
+                    # its own connection alive, not the new one
+                    self.send(Opcode.PING, b'')
             except errors.WebSocketError:
                 pass  # If the websocket has gone away
 
@@ -374,7 +379,9 @@ class WebsocketSession(object):
     def _send_pong(self, event):
         """Send a pong message in response to ping event."""
         try:
-            self.websocket.send_pong(event.data)
+            # On the connection the ping came from (the websocket may
+            # have been connected again since)
+            self.send(Opcode.PONG, event.data)
         except errors.WebSocketError:
             # In case the websocket has gone away
             pass
@@ -408,6 +415,9 @@ class WebsocketSession(object):
             close_timeout=None):
         """Run the websocket."""
         websocket = self.websocket
+        # Everything this loop does concerns its own connection; the
+        # websocket's current state is that of the most recent connect()
+        state = self._state
         url = websocket.url
         # Connecting event
         yield events.Connecting(url)
@@ -458,7 +468,7 @@ class WebsocketSession(object):
             # event was handled (by WebSocket.__exit__, for instance)
             selector = self._selector_cls(sock)
             log.debug('%r created', selector)
-            while not websocket.is_closed:
+            while not state.closed:
                 readable, max_bytes = selector.wait(self.BUFFER_SIZE, poll)
                 # A timeout only counts once what has been received is
                 # consumed, the answer it waits for may be part of it
@@ -467,7 +477,7 @@ class WebsocketSession(object):
                 if readable:
                     data = self._recv(max_bytes)
                     if data:
-                        for event in self.websocket.feed(data):
+                        for event in websocket.feed(data, state):
                             self._on_event(event, auto_pong)
                             yield event
                             if event.name in (
@@ -481,11 +491,11 @@ class WebsocketSession(object):
                                 continue
                             for event in _regular(timeouts=False):
                                 yield event
-                        if not websocket.is_closed:
+                        if not state.closed:
                             for event in _regular():
                                 yield event
                     else:
-                        if websocket.is_active:
+                        if not (state.closing or state.closed):
                             self._socket_fail('connection lost')
                         break
         except _ForceDisconnect as error:
